@@ -61,7 +61,7 @@ theorem sendBy_only_lowered (s : St) (o : Op) (id : Nat) (tr tr' : Tr)
     · cases hg
   cases o with
   | adv d => simp only [step] at h'; rw [h] at h'; cases h'; exact Int.le_refl _
-  | span k root size =>
+  | span k root size kind =>
     simp only [step, processSpan] at h'
     by_cases hk : k = id
     · subst hk
@@ -117,10 +117,10 @@ theorem not_before_deadline (c : Cfg) (ops : List Op) (taken : List Nat) (l : Li
 /-- Ticks and ejections are the only deciding operations: an arrival or a clock advance never
 removes a trace from the buffer and never records a decision. -/
 theorem only_tick_or_eject_decide (s : St) (o : Op)
-    (ho : (∃ d, o = .adv d) ∨ (∃ id root size, o = .span id root size)) :
+    (ho : (∃ d, o = .adv d) ∨ (∃ id root size kind, o = .span id root size kind)) :
     (step s o).1.decided = s.decided ∧
     ∀ id, id ∈ AList.keys s.buf → id ∈ AList.keys (step s o).1.buf := by
-  rcases ho with ⟨d, rfl⟩ | ⟨id, root, size, rfl⟩
+  rcases ho with ⟨d, rfl⟩ | ⟨id, root, size, kind, rfl⟩
   · exact ⟨rfl, fun _ h => h⟩
   · simp only [step, processSpan]
     have hput : ∀ (tr2 : Tr) (k : Nat), k ∈ AList.keys s.buf → k ∈ AList.keys (AList.put s.buf id tr2) := by
@@ -265,7 +265,7 @@ theorem backlog_never_grows (s : St) (hwf : AList.NoDupKeys s.buf) (D : Int) (hD
     backlog (step s o).1 D ≤ backlog s D := by
   cases o with
   | adv d => exact Nat.le_refl _
-  | span id root size =>
+  | span id root size kind =>
     simp only [step, processSpan]
     cases hg : AList.get s.buf id with
     | some tr => exact backlog_addSpan_le s hwf D hD id tr root size (by simp [hg])
@@ -313,7 +313,7 @@ theorem backlog_tick_step (s : St) (hwf : AList.NoDupKeys s.buf) (D : Int) (hD :
     · simp only [hv, if_false, Nat.mul_zero, Nat.sub_zero]
       exact backlog_never_grows s hwf D hD _
   | adv d => simpa [isAcceptedTick] using backlog_never_grows s hwf D hD (.adv d)
-  | span id root size => simpa [isAcceptedTick] using backlog_never_grows s hwf D hD (.span id root size)
+  | span id root size kind => simpa [isAcceptedTick] using backlog_never_grows s hwf D hD (.span id root size kind)
   | eject b i o a => simpa [isAcceptedTick] using backlog_never_grows s hwf D hD (.eject b i o a)
 
 /-- **no_starvation (bound)** — once the clock has passed `D`, along ANY continuation (arrivals,
@@ -506,6 +506,14 @@ def witnessCfg : Cfg := { traceTimeout := 1000, sendDelay := 50, spanLimit := 42
 def witnessOps : List Op := [.span 1 false 1, .span 1 false 1, .adv 1000]
 example : (step (run witnessCfg witnessOps) (.tick [1])).2 = .sent [(1, .expired, 2)] [] := by decide
 
+/-- "Holds more spans than SpanLimit" counts every stored descendant — plain spans, span events and
+span links alike: the kind of an arriving descendant changes neither the state (count, deadline)
+nor any later decision or send reason. -/
+theorem descendants_of_all_kinds_count (c : Cfg) (s : St) (sp : Spec) (id : Nat) (root : Bool)
+    (size : Nat) (k k' : Kind) :
+    step s (.span id root size k) = step s (.span id root size k') ∧
+    Spec.step c sp (.span id root size k) = Spec.step c sp (.span id root size k') := ⟨rfl, rfl⟩
+
 /-- Whatever the limit, 'got root' is reported exactly for the traces that hold a root span, and a
 trace without root under `SpanLimit = 0` (no limit) is always 'expired'. -/
 theorem reason_root_iff (c : Cfg) (tr : Tr) :
@@ -544,6 +552,12 @@ example : (step (run cfgSmall [.span 1 false 1, .span 2 true 1, .adv 1000]) (.ti
 example : (step (run cfgSmall [.span 1 false 1, .span 1 false 1, .span 1 false 1]) (.tick [1])).2
     = .sent [(1, .spanLimit, 3)] [] := by decide
 
+-- span events and links are descendants: 1 span + 1 span event + 1 link exceed SpanLimit = 2, the deadline
+-- drops to the instant of the third arrival and the reason is 'span limit' (the limit counts all kinds)
+example : (AList.get (run cfgSmall [.span 1 false 1, .adv 7, .span 1 false 1 .spanEvent, .adv 7,
+    .span 1 false 1 .link]).buf 1).map (·.sendBy) = some 14 := by decide
+example : (step (run cfgSmall [.span 1 false 1, .span 1 false 1 .spanEvent, .span 1 false 1 .link])
+    (.tick [1])).2 = .sent [(1, .spanLimit, 3)] [] := by decide
 -- backlog of 5 with MaxExpiredTraces = 2: gone after 3 ticks, whatever arrives in between
 def cfgB : Cfg := { traceTimeout := 1000, sendDelay := 50, spanLimit := 0, maxExpired := 2 }
 example : backlog (run cfgB [.span 1 false 1, .span 2 false 1, .span 3 false 1, .span 4 false 1, .span 5 false 1, .adv 1001]) 1000 = 5 := by decide
